@@ -42,7 +42,10 @@ Inductive expr : Type :=
 | EMulti (o : opc) (imms : list arg) (args : list expr) (outs : list N)
 (* SubroutineCall: arguments already converted to expressions (ScratchVar -> index, ABI -> load) *)
 | ECall (sub : N) (t : ty) (args : list expr)
-| EWide (ns ds : list expr).
+| EWide (ns ds : list expr)
+(* the i-th parameter of the enclosing subroutine (by value: the argument's value; by reference: the
+   slot number that was passed) *)
+| EParam (i : N).
 
 (* A subroutine as the compiler sees it after SubroutineEval: its declaration body per calling
    convention is supplied by the harness (read back from the evaluated declaration), since the body
@@ -51,11 +54,14 @@ Record routine : Type := mkRoutine {
   r_id : N;
   r_name : string;
   r_ret : ty;                       (* SubroutineDefinition.return_type *)
-  r_nargs : N;                      (* argument_count() *)
-  r_byref : bool;                   (* has ScratchVar (by-reference) parameters *)
-  r_body : expr;                    (* declaration body: Seq [prologue ...; user body] *)
-  r_deferred : option expr          (* deferred_expr inserted before every retsub *)
+  r_params : list (bool * N);       (* per parameter: by-reference (ScratchVar)?, uid of its argument slot
+                                       (scratch convention, and by-reference parameters in both conventions) *)
+  r_body : expr;                    (* the user's body; parameters occur as EParam i *)
+  r_deferred : option expr          (* deferred_expr inserted before every retsub (ABI output only) *)
 }.
+
+Definition r_nargs (r : routine) : N := N.of_nat (List.length (r_params r)).
+Definition r_byref (r : routine) : bool := existsb fst (r_params r).
 
 Record prog : Type := mkProgram {
   p_main : expr;
@@ -77,6 +83,7 @@ Fixpoint type_of (e : expr) : ty :=
   | EMulti _ _ _ _ => TNone
   | ECall _ t _ => t
   | EWide _ _ => TUint
+  | EParam _ => TAny
   end.
 
 Fixpoint has_return (e : expr) : bool :=
